@@ -11,16 +11,33 @@ C14 — Dependence functions are fitted within bounds, optimally, in dependency 
    independent of that order (within optimiser tolerance)."
 
 Clause → theorem                                   (model: Model/DepProtocol.lean, Model/DepFit.lean)
-  declaration order is a dependency order           declaration_is_topological
+  declaration order is a dependency order           ASSUMED (Python can only bind existing objects); the driver's
+                                                    test of it is the hypothesis `WF`: checkDecls_iff_WF (definitional)
   the callback recursion terminates                 callbacks_terminate
   fitted after all conditioners, ANY history        no_stale_after_any_history  (versions),
     (any declaration order, any order/multiplicity  final_fit_after_conditioners (event log),
      of fit calls, any data epochs, re-fit)         version_eq_count_log
   everything called ⇒ everything fitted             all_called_all_fitted
-  both together (⇒ order independence: the final    final_state_consistent
-    fits happen in a dependency-compatible order)
+  both together (versions only; says nothing about  final_state_consistent
+    results: see the next three rows)
+  RESULTS (`results` = replay of the event log with an ARBITRARY deterministic `fitRes f data p0
+  (conditioners' current parameters)`, = the ghost field `bump` would update: results_bump):
+  after ANY history a fitted function has the fit   results_consistent_after_any_history
+    of its stored pairs given its conditioners'
+    CURRENT parameters
+  a complete round of epoch r (any order, after     results_after_complete_round  (`canon` = dependency-order
+    any earlier history) leaves every function with   fit: canon_spec, canon_unique)
+    the dependency-order fit of the epoch-r pairs
+  ⇒ ORDER INDEPENDENCE: two histories ending with   fit_order_independent, first_fit_order_independent
+    complete rounds of the same data, in different
+    orders / after different pre-histories, give
+    the same parameters for every function
+  … and also when the same dependence structure is  canon_relabel, fit_declaration_order_independent
+    declared in another admissible order (renaming σ)
   intermediate fit may see an unfitted conditioner  intermediate_fit_may_see_unfitted_conditioner (witness)
-  the `issubset` test of `callback` never fails     callback_true
+  the `issubset` test of `callback` never fails     callback_true (one step, given FcSub), fcSub_after_any_history
+                                                    (FcSub holds in every reachable state),
+                                                    callback_true_after_any_history (composed)
   INPUTS of every `_fit` (a history is a list of public calls `(function, data epoch)`):
   stored x/y = pairs of the latest public call      stored_data_is_latest_call
                                                     (latestCall_eq_some_iff / _eq_none_iff pin the spec down)
@@ -35,14 +52,21 @@ Clause → theorem                                   (model: Model/DepProtocol.l
     captured at the first `_fit` = the constructor's
     values, never an earlier result
   detailed log refines the plain log                evlog_refines_log
-  seeded variant "store x/y only when deferred"     stale_variant_refits_old_pairs (by decide, on
+  seeded variant "store x/y only when deferred"     stale_variant_refits_old_pairs (COUNTER-MODEL, by decide, on
     violates the re-fit statement                     `fitCallStale`, which is NOT the code)
-  bounds handed to curve_fit = declared bounds      convertBounds_spec, convertBounds_length
-  declared constraints reach the optimiser          constraints_reach_optimiser, unconstrained_uses_curve_fit,
-                                                    constrained_weighted_refused;
-                                                    constraints_dropped_counterexample (code before the repair)
+  bounds handed to curve_fit = declared bounds      convertBounds_spec (over a Preorder; the driver runs it at Float, see
+                                                    the docstring), convertBounds_length
+  declared constraints reach the optimiser          DEFINITIONAL unfoldings of the model `dispatch` (no content beyond
+                                                    the model; the tie to the code is the correspondence check):
+                                                    constraints_reach_optimiser_def, unconstrained_uses_curve_fit_def,
+                                                    constrained_weighted_refused_def, dispatch_cases_def;
+                                                    constraints_dropped_counterexample (COUNTER-MODEL `dispatchOld`:
+                                                    the code before the repair)
   linear shapes: solution of the normal equations   normal_equations_minimise, isNormalSolution_sound,
-    minimises / is unique                           normal_equations_unique, affineLsq_normal, affineLsq_minimises
+    minimises / is unique                           normal_equations_unique (rank + positive weights as hypotheses;
+                                                    discharged for a + b x: affine_full_rank, affineLsq_unique;
+                                                    weights the driver builds are positive: sigmaWeight_pos),
+                                                    affineLsq_normal, affineLsq_minimises
 
 NOT theorems (observed on the real code by the harness on every explored case, see claims/C14.json):
   `optimality_partial`: that curve_fit / SLSQP actually return parameters inside the bounds,
@@ -200,6 +224,46 @@ theorem doFit_fcSub (N : Nat) (conds : Nat → List Nat) :
           rw [foldl_callback_cons_none _ _ _ _ _ _ ht hd hxd]
           exact ihds _ (fun k hk => hds k (by simp [hk])) (allow_fcSub ht hd)
     exact loop _ _ (fun d hd => (mem_dependents.mp hd).2) hs
+
+/-- the state in which `fit` has stored the pairs but not yet fitted -/
+def store (s : Mut) (f e : Nat) : Mut :=
+  { s with xyEpoch := upd s.xyEpoch f (some e), calls := s.calls + 1 }
+
+theorem fitCall_eq (N : Nat) (conds : Nat → List Nat) (f e : Nat) (s : Mut) :
+    fitCall N conds f e s =
+      if s.mayFit f = true then doFit N conds N f e (store s f e) else store s f e := rfl
+
+/-- the hypothesis `FcSub` of `callback_true` holds in EVERY reachable top-level state (any
+declaration, any history; no well-formedness needed) -/
+theorem fcSub_after_any_history (N : Nat) (conds : Nat → List Nat) (ops : List (Nat × Nat)) :
+    FcSub conds (runHistory N conds ops) := by
+  unfold runHistory
+  suffices H : ∀ (ops : List (Nat × Nat)) (s : Mut), FcSub conds s →
+      FcSub conds (ops.foldl (fun s p => fitCall N conds p.1 p.2 s) s) from
+    H ops _ (fun h g hg => by simp [init] at hg)
+  intro ops
+  induction ops with
+  | nil => intro s h; exact h
+  | cons p ops ih =>
+    intro s hs
+    apply ih
+    show FcSub conds (fitCall N conds p.1 p.2 s)
+    rw [fitCall_eq]
+    have h1 : FcSub conds (store s p.1 p.2) := hs
+    split
+    · exact doFit_fcSub N conds N p.1 p.2 _ h1
+    · exact h1
+
+/-- **the `issubset` test never fails, in any reachable state**: the callbacks of the NEXT cascade
+after any history (started on a reachable state, then kept by `doFit_fcSub` through the cascade)
+always take the "may fit" branch. -/
+theorem callback_true_after_any_history (N : Nat) (conds : Nat → List Nat)
+    (ops : List (Nat × Nat)) (refit : Nat → Nat → Mut → Mut) (f h : Nat) (hf : f ∈ conds h) :
+    callback conds refit f (runHistory N conds ops) h =
+      match (runHistory N conds ops).xyEpoch h with
+      | some e => refit h e (allow (runHistory N conds ops) f h)
+      | none => allow (runHistory N conds ops) f h :=
+  callback_true conds refit f _ h (fcSub_after_any_history N conds ops) hf
 
 /-! ### a generic preservation principle for the cascade
 
@@ -359,14 +423,6 @@ theorem doFit_spec (N : Nat) (conds : Nat → List Nat) (wf : WF conds) :
 def Inv (N : Nat) (conds : Nat → List Nat) (s : Mut) : Prop :=
   Good s ∧ FcSub conds s ∧ NoStale N conds s
 
-/-- the state in which `fit` has stored the pairs but not yet fitted -/
-def store (s : Mut) (f e : Nat) : Mut :=
-  { s with xyEpoch := upd s.xyEpoch f (some e), calls := s.calls + 1 }
-
-theorem fitCall_eq (N : Nat) (conds : Nat → List Nat) (f e : Nat) (s : Mut) :
-    fitCall N conds f e s =
-      if s.mayFit f = true then doFit N conds N f e (store s f e) else store s f e := rfl
-
 theorem store_hasXY_self (s : Mut) (f e : Nat) : (store s f e).hasXY f = true :=
   hasXY_some (s := store s f e) (upd_same _ _ _)
 
@@ -442,24 +498,41 @@ theorem no_stale_after_any_history (N : Nat) (conds : Nat → List Nat) (wf : WF
 
 /-! ### termination: declaration order is a topological order -/
 
-/-- **declaration is topological.**  Whatever Python can construct (`checkDecls`: a keyword can only
-be bound to an object that already exists) has every conditioner declared before its dependent. -/
-theorem declaration_is_topological (decls : List (List Nat)) (h : checkDecls decls = true) :
-    WF (condsOf decls) := by
-  intro f g hg
-  unfold condsOf at hg
-  cases hd : decls[f]? with
-  | none => simp [hd] at hg
-  | some cs =>
-    simp only [hd] at hg
-    have hf : f < decls.length := by
-      rcases List.getElem?_eq_some_iff.mp hd with ⟨hlt, _⟩
-      exact hlt
-    unfold checkDecls at h
-    rw [List.all_eq_true] at h
-    have := h f (List.mem_range.mpr hf)
-    simp only [hd, List.all_eq_true, decide_eq_true_eq] at this
-    exact this g hg
+/-- **`checkDecls` is the Boolean form of `WF`** (definitional restatement, both directions).
+That Python can only construct declarations with `checkDecls = true` (a keyword can only be bound to
+an object that already exists) is an ASSUMPTION about Python, not a theorem: the driver refuses
+other declarations (`ERR badDecl`) and the harness never produces one.  So "declaration order is a
+dependency order" is assumed; this lemma only says that the driver's test is exactly the hypothesis
+`WF` of the theorems (for declared objects; undeclared ones have no conditioners). -/
+theorem checkDecls_iff_WF (decls : List (List Nat)) :
+    checkDecls decls = true ↔ WF (condsOf decls) := by
+  constructor
+  · intro h f g hg
+    unfold condsOf at hg
+    cases hd : decls[f]? with
+    | none => simp [hd] at hg
+    | some cs =>
+      simp only [hd] at hg
+      have hf : f < decls.length := by
+        rcases List.getElem?_eq_some_iff.mp hd with ⟨hlt, _⟩
+        exact hlt
+      unfold checkDecls at h
+      rw [List.all_eq_true] at h
+      have := h f (List.mem_range.mpr hf)
+      simp only [hd, List.all_eq_true, decide_eq_true_eq] at this
+      exact this g hg
+  · intro wf
+    unfold checkDecls
+    rw [List.all_eq_true]
+    intro i hi
+    have hi' : i < decls.length := List.mem_range.mp hi
+    have hd : decls[i]? = some decls[i] := List.getElem?_eq_getElem hi'
+    simp only [hd, List.all_eq_true, decide_eq_true_eq]
+    intro g hg
+    apply wf i g
+    unfold condsOf
+    simp only [hd]
+    exact hg
 
 theorem callback_congr (conds : Nat → List Nat) (r₁ r₂ : Nat → Nat → Mut → Mut) (f : Nat) (s : Mut)
     (h : Nat) (hr : ∀ e t, r₁ h e t = r₂ h e t) :
@@ -1367,6 +1440,314 @@ theorem round_complete_fits_in_round (N : Nat) (conds : Nat → List Nat) (wf : 
   rw [List.take_append_of_le_length hle', hfn, hdata] at h3
   exact hfresh _ (List.mem_of_mem_take (latestCall_mem _ h r h3)) rfl
 
+/-! ### results: what the functions END UP WITH, and order independence
+
+The numerical `_fit` is an event in the model.  What it returns is, in the code, a deterministic
+function of its inputs: the function fitted, the pairs (data epoch), the start values (token) and
+the parameters the conditioners have *at that moment*.  `results` replays the detailed event log
+with an ARBITRARY such function `fitRes` over an arbitrary result type `R`; it is exactly the field
+one would add to `Mut` and update in `bump` (`results_bump`, by `rfl`), so nothing about the
+driver's state machine changes.  `canon` is the dependency-order fit of data epoch `r` (every
+function fitted once, after its conditioners, from the initial values); `canon_spec` /
+`canon_unique` show it is the only solution of `c h = fitRes h r 0 ((conds h).map c)`. -/
+
+section Results
+variable {R : Type}
+
+/-- the parameters every function has after the `_fit` events of a log (newest first): a `_fit` of
+`f` replaces `f`'s parameters by `fitRes f data p0 (current parameters of conds f)` -/
+def results (conds : Nat → List Nat) (fitRes : Nat → Nat → Nat → List R → R) (init0 : Nat → R) :
+    List Ev → Nat → R
+  | [] => init0
+  | ev :: rest =>
+    upd (results conds fitRes init0 rest) ev.fn
+      (fitRes ev.fn ev.data ev.p0 ((conds ev.fn).map (results conds fitRes init0 rest)))
+
+/-- `results` is the ghost field "current parameters" updated by `bump`: the `_fit` of `f` on pairs
+of epoch `e` stores `fitRes f e (start token) (parameters of the conditioners now)`. -/
+theorem results_bump (conds : Nat → List Nat) (fitRes : Nat → Nat → Nat → List R → R)
+    (init0 : Nat → R) (s : Mut) (f e : Nat) :
+    results conds fitRes init0 (bump s f e).evlog =
+      upd (results conds fitRes init0 s.evlog) f
+        (fitRes f e (p0Token s f) ((conds f).map (results conds fitRes init0 s.evlog))) := rfl
+
+/-- dependency-order fit of data epoch `r`: function `n` is fitted once, from the initial values
+(token 0), after all functions `< n` -/
+def canon (conds : Nat → List Nat) (fitRes : Nat → Nat → Nat → List R → R) (init0 : Nat → R)
+    (r : Nat) : Nat → Nat → R
+  | 0 => init0
+  | n + 1 =>
+    upd (canon conds fitRes init0 r n) n
+      (fitRes n r 0 ((conds n).map (canon conds fitRes init0 r n)))
+
+theorem canon_stable (conds : Nat → List Nat) (fitRes : Nat → Nat → Nat → List R → R)
+    (init0 : Nat → R) (r h : Nat) :
+    ∀ n, h < n → canon conds fitRes init0 r n h = canon conds fitRes init0 r (h + 1) h := by
+  intro n
+  induction n with
+  | zero => intro hn; omega
+  | succ n ih =>
+    intro hn
+    by_cases hh : h = n
+    · subst hh; rfl
+    · have : canon conds fitRes init0 r (n + 1) h = canon conds fitRes init0 r n h :=
+        upd_other _ _ _ _ hh
+      rw [this]; exact ih (by omega)
+
+/-- **`canon` is the dependency-order fit**: every function's parameters are the result of fitting
+it to the epoch-`r` pairs, from the initial values, given the `canon` parameters of its
+conditioners. -/
+theorem canon_spec (conds : Nat → List Nat) (wf : WF conds)
+    (fitRes : Nat → Nat → Nat → List R → R) (init0 : Nat → R) (r N h : Nat) (hh : h < N) :
+    canon conds fitRes init0 r N h =
+      fitRes h r 0 ((conds h).map (canon conds fitRes init0 r N)) := by
+  rw [canon_stable conds fitRes init0 r h N hh]
+  have h1 : canon conds fitRes init0 r (h + 1) h =
+      fitRes h r 0 ((conds h).map (canon conds fitRes init0 r h)) := upd_same _ _ _
+  rw [h1]
+  congr 1
+  apply List.map_congr_left
+  intro g hg
+  have hgh : g < h := wf h g hg
+  rw [canon_stable conds fitRes init0 r g h hgh, canon_stable conds fitRes init0 r g N (by omega)]
+
+/-- the fixed-point equation has only one solution below `N`: `canon` does not depend on how the
+dependency order is linearised -/
+theorem canon_unique (conds : Nat → List Nat) (wf : WF conds)
+    (fitRes : Nat → Nat → Nat → List R → R) (init0 : Nat → R) (r N : Nat) (c : Nat → R)
+    (hc : ∀ h, h < N → c h = fitRes h r 0 ((conds h).map c)) :
+    ∀ h, h < N → c h = canon conds fitRes init0 r N h := by
+  intro h
+  induction h using Nat.strong_induction_on with
+  | _ h ih =>
+    intro hh
+    rw [hc h hh, canon_spec conds wf fitRes init0 r N h hh]
+    congr 1
+    apply List.map_congr_left
+    intro g hg
+    have hgh : g < h := wf h g hg
+    exact ih g hgh (by omega)
+
+/-- `seen` never runs ahead of `version` -/
+def SeenLe (s : Mut) : Prop := ∀ h g, s.seen h g ≤ s.version g
+
+/-- a function whose last `_fit` saw the current version of all its conditioners has the parameters
+obtained by fitting it to the pairs of that `_fit`, from the initial values, given the CURRENT
+parameters of its conditioners -/
+def ResOK (conds : Nat → List Nat) (fitRes : Nat → Nat → Nat → List R → R) (init0 : Nat → R)
+    (s : Mut) : Prop :=
+  ∀ h e, s.lastData h = some e → (∀ g ∈ conds h, s.seen h g = s.version g) →
+    results conds fitRes init0 s.evlog h =
+      fitRes h e 0 ((conds h).map (results conds fitRes init0 s.evlog))
+
+def ResInv (conds : Nat → List Nat) (fitRes : Nat → Nat → Nat → List R → R) (init0 : Nat → R)
+    (s : Mut) : Prop :=
+  EvInv s ∧ SeenLe s ∧ ResOK conds fitRes init0 s
+
+theorem seenLe_bump (s : Mut) (f e : Nat) (h : SeenLe s) : SeenLe (bump s f e) := by
+  intro k g
+  have hv : s.version g ≤ (bump s f e).version g := (mono_bump s f e).ver g
+  by_cases hk : k = f
+  · subst hk
+    have : (bump s k e).seen k g = s.version g := by
+      show upd s.seen k (fun g => s.version g) k g = s.version g
+      rw [upd_same]
+    rw [this]; exact hv
+  · have : (bump s f e).seen k g = s.seen k g := by
+      show upd s.seen f (fun g => s.version g) k g = s.seen k g
+      rw [upd_other _ _ _ _ hk]
+    rw [this]; exact Nat.le_trans (h k g) hv
+
+theorem map_upd_of_not_mem (c : Nat → R) (f : Nat) (v : R) (l : List Nat) (hf : f ∉ l) :
+    l.map (upd c f v) = l.map c := by
+  apply List.map_congr_left
+  intro g hg
+  exact upd_other _ _ _ _ (fun e => hf (e ▸ hg))
+
+theorem resOK_bump (conds : Nat → List Nat) (wf : WF conds)
+    (fitRes : Nat → Nat → Nat → List R → R) (init0 : Nat → R) (s : Mut) (f e : Nat)
+    (hev : EvInv s) (hle : SeenLe s) (hres : ResOK conds fitRes init0 s) :
+    ResOK conds fitRes init0 (bump s f e) := by
+  intro h e' hl hseen
+  rw [results_bump, p0Token_zero hev f]
+  have hl' : upd s.lastData f (some e) h = some e' := hl
+  by_cases hk : h = f
+  · subst hk
+    rw [upd_same] at hl'
+    have he : e = e' := Option.some.inj hl'
+    subst he
+    have hself : h ∉ conds h := fun hm => Nat.lt_irrefl _ (wf h h hm)
+    rw [upd_same, map_upd_of_not_mem _ _ _ _ hself]
+  · rw [upd_other _ _ _ _ hk] at hl'
+    have hfc : f ∉ conds h := by
+      intro hm
+      have h1 : (bump s f e).seen h f = (bump s f e).version f := hseen f hm
+      have h2 : (bump s f e).seen h f = s.seen h f := by
+        show upd s.seen f (fun g => s.version g) h f = s.seen h f
+        rw [upd_other _ _ _ _ hk]
+      have h3 : (bump s f e).version f = s.version f + 1 := upd_same _ _ _
+      have h4 := hle h f
+      omega
+    have hold : ∀ g ∈ conds h, s.seen h g = s.version g := by
+      intro g hg
+      have hgf : g ≠ f := fun e' => hfc (e' ▸ hg)
+      have h1 : (bump s f e).seen h g = (bump s f e).version g := hseen g hg
+      have h2 : (bump s f e).seen h g = s.seen h g := by
+        show upd s.seen f (fun g => s.version g) h g = s.seen h g
+        rw [upd_other _ _ _ _ hk]
+      have h3 : (bump s f e).version g = s.version g := upd_other _ _ _ _ hgf
+      rw [← h2, ← h3]; exact h1
+    rw [upd_other _ _ _ _ hk, map_upd_of_not_mem _ _ _ _ hfc]
+    exact hres h e' hl' hold
+
+theorem resInv_bump (conds : Nat → List Nat) (wf : WF conds)
+    (fitRes : Nat → Nat → Nat → List R → R) (init0 : Nat → R) (s : Mut) (f e : Nat)
+    (h : ResInv conds fitRes init0 s) : ResInv conds fitRes init0 (bump s f e) :=
+  ⟨evInv_bump s f e h.1, seenLe_bump s f e h.2.1, resOK_bump conds wf fitRes init0 s f e h.1 h.2.1 h.2.2⟩
+
+theorem resInv_of_eq (conds : Nat → List Nat) (fitRes : Nat → Nat → Nat → List R → R)
+    (init0 : Nat → R) {s t : Mut} (hv : t.version = s.version) (hs : t.seen = s.seen)
+    (hl : t.log = s.log) (hd : t.lastData = s.lastData) (hp : t.p0At = s.p0At)
+    (he : t.evlog = s.evlog) (h : ResInv conds fitRes init0 s) : ResInv conds fitRes init0 t := by
+  obtain ⟨a, b, c⟩ := h
+  refine ⟨evInv_of_eq hv hl hd hp he a, ?_, ?_⟩
+  · unfold SeenLe; rw [hv, hs]; exact b
+  · unfold ResOK; rw [hv, hs, hd, he]; exact c
+
+theorem fitCall_resInv (N : Nat) (conds : Nat → List Nat) (wf : WF conds)
+    (fitRes : Nat → Nat → Nat → List R → R) (init0 : Nat → R) (f e : Nat) (s : Mut)
+    (h : ResInv conds fitRes init0 s) : ResInv conds fitRes init0 (fitCall N conds f e s) := by
+  rw [fitCall_eq]
+  have h1 : ResInv conds fitRes init0 (store s f e) :=
+    resInv_of_eq conds fitRes init0 (s := s) rfl rfl rfl rfl rfl rfl h
+  have key := doFit_preserves N conds (ResInv conds fitRes init0)
+    (fun s f e _ _ h => resInv_bump conds wf fitRes init0 s f e h)
+    (fun s _ _ h => resInv_of_eq conds fitRes init0 (s := s) rfl rfl rfl rfl rfl rfl h)
+    (fun s _ _ h => resInv_of_eq conds fitRes init0 (s := s) rfl rfl rfl rfl rfl rfl h)
+  split
+  · rename_i hm
+    exact key.1 N f e _ (upd_same _ _ _) hm h1
+  · exact h1
+
+theorem runHistory_resInv (N : Nat) (conds : Nat → List Nat) (wf : WF conds)
+    (fitRes : Nat → Nat → Nat → List R → R) (init0 : Nat → R) (ops : List (Nat × Nat)) :
+    ResInv conds fitRes init0 (runHistory N conds ops) :=
+  runHistory_induct N conds (ResInv conds fitRes init0)
+    ⟨init_evInv conds, fun _ _ => Nat.le_refl _, fun h e hl => by simp [init] at hl⟩ ops
+    (fun _ => True) (fun _ _ => trivial)
+    (fun s p _ hs => fitCall_resInv N conds wf fitRes init0 p.1 p.2 s hs)
+
+/-- **after ANY history** (no completeness assumption): every fitted function has exactly the
+parameters obtained by fitting it to its stored pairs (= the pairs of the latest public call on
+it), from the initial values, given the parameters its conditioners have NOW. -/
+theorem results_consistent_after_any_history (N : Nat) (conds : Nat → List Nat) (wf : WF conds)
+    (fitRes : Nat → Nat → Nat → List R → R) (init0 : Nat → R)
+    (ops : List (Nat × Nat)) (hops : ∀ p ∈ ops, p.1 < N) :
+    let s := runHistory N conds ops
+    ∀ h, h < N → 0 < s.version h → ∃ e, latestCall ops h = some e ∧
+      results conds fitRes init0 s.evlog h =
+        fitRes h e 0 ((conds h).map (results conds fitRes init0 s.evlog)) := by
+  intro s h hh hv
+  obtain ⟨e, h1, _, h3⟩ := last_fit_data_is_stored N conds ops hops h hv
+  refine ⟨e, h3, ?_⟩
+  exact (runHistory_resInv N conds wf fitRes init0 ops).2.2 h e h1
+    (fun g hg => no_stale_after_any_history N conds wf ops hops h g hh hv hg)
+
+/-- **the result of a complete round is the dependency-order fit.**  Well-formed declaration; any
+earlier history `pre`; then a round in which every function receives a public `fit` call with pairs
+of epoch `r`, in ANY order (also repeated calls).  Then every function ends up with exactly the
+parameters of the dependency-order fit of the epoch-`r` pairs (`canon`), whatever `fitRes` is. -/
+theorem results_after_complete_round (N : Nat) (conds : Nat → List Nat) (wf : WF conds)
+    (fitRes : Nat → Nat → Nat → List R → R) (init0 : Nat → R)
+    (pre rnd : List (Nat × Nat)) (r : Nat) (hpre : ∀ p ∈ pre, p.1 < N)
+    (hrnd : ∀ p ∈ rnd, p.1 < N ∧ p.2 = r) (hall : ∀ f, f < N → (f, r) ∈ rnd) :
+    ∀ h, h < N →
+      results conds fitRes init0 (runHistory N conds (pre ++ rnd)).evlog h =
+        canon conds fitRes init0 r N h := by
+  have hcur := round_complete_all_current N conds wf pre rnd r hpre hrnd hall
+  have hres := (runHistory_resInv N conds wf fitRes init0 (pre ++ rnd)).2.2
+  apply canon_unique conds wf fitRes init0 r N
+  intro h hh
+  obtain ⟨_, _, hld, _, hc⟩ := hcur h hh
+  exact hres h r hld (fun g hg => (hc g hg).2.1)
+
+/-- **order independence.**  Two histories on the same declaration, each ending with a complete
+round of the same data (epoch `r`) — in different orders, with different multiplicities, after
+different earlier histories (first fit vs. re-fit) — leave every function with the same parameters. -/
+theorem fit_order_independent (N : Nat) (conds : Nat → List Nat) (wf : WF conds)
+    (fitRes : Nat → Nat → Nat → List R → R) (init0 : Nat → R)
+    (pre₁ rnd₁ pre₂ rnd₂ : List (Nat × Nat)) (r : Nat)
+    (hpre₁ : ∀ p ∈ pre₁, p.1 < N) (hrnd₁ : ∀ p ∈ rnd₁, p.1 < N ∧ p.2 = r)
+    (hall₁ : ∀ f, f < N → (f, r) ∈ rnd₁)
+    (hpre₂ : ∀ p ∈ pre₂, p.1 < N) (hrnd₂ : ∀ p ∈ rnd₂, p.1 < N ∧ p.2 = r)
+    (hall₂ : ∀ f, f < N → (f, r) ∈ rnd₂) :
+    ∀ h, h < N →
+      results conds fitRes init0 (runHistory N conds (pre₁ ++ rnd₁)).evlog h =
+        results conds fitRes init0 (runHistory N conds (pre₂ ++ rnd₂)).evlog h := by
+  intro h hh
+  rw [results_after_complete_round N conds wf fitRes init0 pre₁ rnd₁ r hpre₁ hrnd₁ hall₁ h hh,
+    results_after_complete_round N conds wf fitRes init0 pre₂ rnd₂ r hpre₂ hrnd₂ hall₂ h hh]
+
+/-- special case: the first fit of a model, with the parameters dict in two different orders -/
+theorem first_fit_order_independent (N : Nat) (conds : Nat → List Nat) (wf : WF conds)
+    (fitRes : Nat → Nat → Nat → List R → R) (init0 : Nat → R) (o₁ o₂ : List Nat) (r : Nat)
+    (h₁ : ∀ f, f ∈ o₁ ↔ f < N) (h₂ : ∀ f, f ∈ o₂ ↔ f < N) :
+    ∀ h, h < N →
+      results conds fitRes init0 (runHistory N conds (round o₁ r)).evlog h =
+        results conds fitRes init0 (runHistory N conds (round o₂ r)).evlog h := by
+  have hr : ∀ o : List Nat, (∀ f, f ∈ o ↔ f < N) →
+      (∀ p ∈ round o r, p.1 < N ∧ p.2 = r) ∧ (∀ f, f < N → (f, r) ∈ round o r) := by
+    intro o ho
+    constructor
+    · intro p hp
+      obtain ⟨f, hf, rfl⟩ := List.mem_map.mp hp
+      exact ⟨(ho f).mp hf, rfl⟩
+    · intro f hf
+      exact List.mem_map.mpr ⟨f, (ho f).mpr hf, rfl⟩
+  have := fit_order_independent N conds wf fitRes init0 [] (round o₁ r) [] (round o₂ r) r
+    (by simp) (hr o₁ h₁).1 (hr o₁ h₁).2 (by simp) (hr o₂ h₂).1 (hr o₂ h₂).2
+  simpa using this
+/-- **the dependency-order fit does not depend on the declaration order.**  The same dependence
+structure declared in another (admissible) order: `σ` renames the objects, `conds'`/`fitRes'` are
+the renamed conditioner lists / fit function.  Then object `σ h` of the second declaration gets
+the `canon` parameters of object `h` of the first. -/
+theorem canon_relabel (N : Nat) (conds conds' : Nat → List Nat) (wf : WF conds) (wf' : WF conds')
+    (fitRes fitRes' : Nat → Nat → Nat → List R → R) (init0 init0' : Nat → R) (r : Nat)
+    (σ : Nat → Nat) (hσ : ∀ h, h < N → σ h < N)
+    (hconds : ∀ h, h < N → conds' (σ h) = (conds h).map σ)
+    (hfit : ∀ h, h < N → fitRes' (σ h) = fitRes h) :
+    ∀ h, h < N → canon conds' fitRes' init0' r N (σ h) = canon conds fitRes init0 r N h := by
+  apply canon_unique conds wf fitRes init0 r N (fun h => canon conds' fitRes' init0' r N (σ h))
+  intro h hh
+  show canon conds' fitRes' init0' r N (σ h) = _
+  rw [canon_spec conds' wf' fitRes' init0' r N (σ h) (hσ h hh), hconds h hh, hfit h hh,
+    List.map_map]
+  rfl
+
+/-- **declaration order AND fit order independence**: two declarations of the same dependence
+structure (renaming `σ`), each fitted by some history that ends with a complete round of the same
+data — corresponding objects end up with the same parameters. -/
+theorem fit_declaration_order_independent (N : Nat) (conds conds' : Nat → List Nat)
+    (wf : WF conds) (wf' : WF conds') (fitRes fitRes' : Nat → Nat → Nat → List R → R)
+    (init0 init0' : Nat → R) (r : Nat) (σ : Nat → Nat) (hσ : ∀ h, h < N → σ h < N)
+    (hconds : ∀ h, h < N → conds' (σ h) = (conds h).map σ)
+    (hfit : ∀ h, h < N → fitRes' (σ h) = fitRes h)
+    (pre rnd pre' rnd' : List (Nat × Nat))
+    (hpre : ∀ p ∈ pre, p.1 < N) (hrnd : ∀ p ∈ rnd, p.1 < N ∧ p.2 = r)
+    (hall : ∀ f, f < N → (f, r) ∈ rnd)
+    (hpre' : ∀ p ∈ pre', p.1 < N) (hrnd' : ∀ p ∈ rnd', p.1 < N ∧ p.2 = r)
+    (hall' : ∀ f, f < N → (f, r) ∈ rnd') :
+    ∀ h, h < N →
+      results conds' fitRes' init0' (runHistory N conds' (pre' ++ rnd')).evlog (σ h) =
+        results conds fitRes init0 (runHistory N conds (pre ++ rnd)).evlog h := by
+  intro h hh
+  rw [results_after_complete_round N conds' wf' fitRes' init0' pre' rnd' r hpre' hrnd' hall'
+      (σ h) (hσ h hh),
+    results_after_complete_round N conds wf fitRes init0 pre rnd r hpre hrnd hall h hh]
+  exact canon_relabel N conds conds' wf wf' fitRes fitRes' init0 init0' r σ hσ hconds hfit h hh
+
+end Results
+
 /-! ### witnesses / non-vacuity -/
 
 /-- the join `{0, 1} → 2` -/
@@ -1445,6 +1826,28 @@ example :
 example : (runHistory 4 diamond (round [3, 1, 2, 0] 0 ++ [(2, 1)])).lastData 1 = some 0 ∧
     (runHistory 4 diamond (round [3, 1, 2, 0] 0 ++ [(2, 1)])).lastData 2 = some 1 ∧
     (runHistory 4 diamond (round [3, 1, 2, 0] 0 ++ [(2, 1)])).lastData 3 = some 0 := by decide
+-- non-vacuity of `results_after_complete_round` / `fit_order_independent`: a toy `fitRes` on `Nat`
+-- that depends on every one of its inputs; diamond; first fit in one order vs. re-fit (after a
+-- round on other pairs and a partial round) in another order give the dependency-order fit of
+-- epoch 5; a partial re-fit does not; `canon` differs from the initial values.
+def toyFit (f e p0 : Nat) (args : List Nat) : Nat := 1 + f + 10 * e + 1000 * p0 + 3 * args.sum
+example :
+    (List.range 4).map (results diamond toyFit (fun _ => 0)
+      (runHistory 4 diamond (round [3, 1, 2, 0] 5)).evlog) = [51, 205, 206, 1287] ∧
+    (List.range 4).map (results diamond toyFit (fun _ => 0)
+      (runHistory 4 diamond (round [0, 2, 1, 3] 0 ++ [(2, 1)] ++ round [2, 3, 0, 1, 0] 5)).evlog)
+      = [51, 205, 206, 1287] ∧
+    (List.range 4).map (canon diamond toyFit (fun _ => 0) 5 4) = [51, 205, 206, 1287] ∧
+    (List.range 4).map (results diamond toyFit (fun _ => 0)
+      (runHistory 4 diamond (round [0, 2, 1, 3] 0 ++ [(2, 5)])).evlog) ≠ [51, 205, 206, 1287] := by
+  decide
+-- non-vacuity of `canon_relabel`: the diamond declared as 0 → {1, 2} → 3 and, with the two middle
+-- objects swapped (σ = swap 1 2), the renamed toy fit gives the swapped parameters
+def swap12 : Nat → Nat | 1 => 2 | 2 => 1 | n => n
+def diamond' : Nat → List Nat | 1 => [0] | 2 => [0] | 3 => [2, 1] | _ => []
+example : (∀ h, h < 4 → swap12 h < 4) ∧ (∀ h, h < 4 → diamond' (swap12 h) = (diamond h).map swap12) ∧
+    (List.range 4).map (fun h => canon diamond' (fun f => toyFit (swap12 f)) (fun _ => 0) 5 4 (swap12 h))
+      = (List.range 4).map (canon diamond toyFit (fun _ => 0) 5 4) := by decide
 example : latestCall [(1, 0), (0, 0), (1, 1)] 1 = some 1 ∧ latestCall [(1, 0), (0, 0), (1, 1)] 0 = some 0 ∧
     latestCall [(1, 0), (0, 0), (1, 1)] 2 = none := by decide
 
@@ -1468,7 +1871,10 @@ theorem convertBounds_length (ninf pinf : α) (bs : List (Option α × Option α
 
 /-- **`convert_bounds_for_curve_fit`**: the box `[lower_bounds, upper_bounds]` admits exactly the
 parameter vectors the declared bounds admit (parameter `i` gets *its* pair, lower stays lower),
-`ninf`/`pinf` being below/above every parameter value. -/
+`ninf`/`pinf` being below/above every parameter value.
+Stated over a `Preorder`; the driver runs `convertBounds` at `Float` (not a preorder: NaN), where
+the statement applies to the non-NaN values only; the Float output itself is compared bit for bit
+with `convert_bounds_for_curve_fit` by the harness (op `cbounds`). -/
 theorem convertBounds_spec (ninf pinf : α) (bs : List (Option α × Option α)) (p : List α)
     (hinf : ∀ x ∈ p, ninf ≤ x ∧ x ≤ pinf) :
     Admissible bs p ↔
@@ -1497,10 +1903,14 @@ example : convertBounds (-100 : Int) 100 [(some 0, none), (none, some 5)] = ([0,
 section Dispatch
 variable {α : Type}
 
-/-- **constraints reach the optimiser**: when constraints are declared and the dispatch produces an
+/-! The four statements below are DEFINITIONAL: they unfold the model `dispatch` (a two-level
+`match`) and carry no content beyond it.  That `dispatch` is what `_fit` / `fit_function` /
+`fit_constrained_function` do is the correspondence check (recorders around `curve_fit`/`minimize`). -/
+
+/-- (definitional, inversion of `dispatch`) when constraints are declared and the dispatch produces an
 optimiser call, that call is SLSQP started at `p0` with the declared bounds and with exactly the
 declared constraints among its arguments (and no weights were declared). -/
-theorem constraints_reach_optimiser (ninf pinf : α) (spec : DepSpec α) (p0 : List α)
+theorem constraints_reach_optimiser_def (ninf pinf : α) (spec : DepSpec α) (p0 : List α)
     (w : Option (List α)) (cs : List Nat) (call : OptCall α)
     (hc : spec.constraints = some cs) (h : dispatch ninf pinf spec p0 w = .ok call) :
     call = .slsqp p0 spec.bounds cs ∧ w = none := by
@@ -1512,20 +1922,34 @@ theorem constraints_reach_optimiser (ninf pinf : α) (spec : DepSpec α) (p0 : L
     simp only [Except.ok.injEq] at h
     exact ⟨h.symm, rfl⟩
 
-/-- without constraints: `curve_fit` at `p0`, `sigma = weights(x, y)`, converted bounds -/
-theorem unconstrained_uses_curve_fit (ninf pinf : α) (spec : DepSpec α) (p0 : List α)
+/-- (definitional) without constraints: `curve_fit` at `p0`, `sigma = weights(x, y)`, converted bounds -/
+theorem unconstrained_uses_curve_fit_def (ninf pinf : α) (spec : DepSpec α) (p0 : List α)
     (w : Option (List α)) (hc : spec.constraints = none) :
     dispatch ninf pinf spec p0 w =
       .ok (.curveFit p0 w (spec.bounds.map (convertBounds ninf pinf))) := by
   unfold dispatch; rw [hc]
 
-/-- constraints together with a weights callable are refused (`NotImplementedError`) -/
-theorem constrained_weighted_refused (ninf pinf : α) (spec : DepSpec α) (p0 : List α)
+/-- (definitional) constraints together with a weights callable are refused (`NotImplementedError`) -/
+theorem constrained_weighted_refused_def (ninf pinf : α) (spec : DepSpec α) (p0 : List α)
     (v : List α) (cs : List Nat) (hc : spec.constraints = some cs) :
     dispatch ninf pinf spec p0 (some v) = .error .notImplemented := by
   unfold dispatch; rw [hc]
 
-/-- defect #9 (model of the code before the repair): a declared constraint is not among the
+/-- (definitional) complete case analysis of `dispatch` -/
+theorem dispatch_cases_def (ninf pinf : α) (spec : DepSpec α) (p0 : List α) (w : Option (List α))
+    (call : OptCall α) :
+    dispatch ninf pinf spec p0 w = .ok call ↔
+      (spec.constraints = none ∧ call = .curveFit p0 w (spec.bounds.map (convertBounds ninf pinf))) ∨
+      (∃ cs, spec.constraints = some cs ∧ w = none ∧ call = .slsqp p0 spec.bounds cs) := by
+  unfold dispatch
+  cases hc : spec.constraints with
+  | none => simp [eq_comm]
+  | some cs =>
+    cases w with
+    | some v => simp
+    | none => simp [eq_comm]
+
+/-- COUNTER-MODEL, defect #9 (model of the code before the repair): a declared constraint is not among the
 arguments of the optimiser call. -/
 theorem constraints_dropped_counterexample :
     ∃ (spec : DepSpec Int) (p0 : List Int) (cs : List Nat), spec.constraints = some cs ∧ cs ≠ [] ∧
@@ -1636,7 +2060,10 @@ theorem quad_eq_zero (n : Nat) (obs : List (Obs α)) (d : Nat → α) (hw : ∀ 
     · exact ih (fun q hq => hw q (by simp [hq])) h4 p hp
 
 /-- **uniqueness** for a design of full column rank and positive weights: any parameter vector
-with the same (minimal) residual coincides with the solution of the normal equations. -/
+with the same (minimal) residual coincides with the solution of the normal equations.
+`hrank` (full column rank) is a HYPOTHESIS here; it is discharged for the affine design in
+`affine_full_rank` / `affineLsq_unique`; for other linear shapes the harness only uses
+`isNormalSolution_sound` (minimality), not uniqueness.  `0 < o.w`: see `sigmaWeight_pos`. -/
 theorem normal_equations_unique (n : Nat) (obs : List (Obs α)) (x : Nat → α)
     (hw : ∀ o ∈ obs, 0 < o.w) (hne : ∀ j, j < n → grad n obs x j = 0)
     (hrank : ∀ d : Nat → α, (∀ o ∈ obs, dotN n o.row d = 0) → ∀ j, j < n → d j = 0)
@@ -1711,7 +2138,103 @@ theorem affineLsq_minimises (pts : List (WPt α)) (a b : α) (h : affineLsq pts 
   unfold affineObs at ho
   rcases List.mem_map.mp ho with ⟨p, hp, rfl⟩
   exact hw p hp
+omit [LinearOrder α] [IsStrictOrderedRing α] in
+theorem wsumBy_lin (pts : List (WPt α)) (c d : α) (f g : WPt α → α) :
+    wsumBy (fun p => c * f p + d * g p) pts = c * wsumBy f pts + d * wsumBy g pts := by
+  induction pts with
+  | nil => simp [wsumBy]
+  | cons p ps ih => simp only [wsumBy]; rw [ih]; ring
+
+omit [LinearOrder α] [IsStrictOrderedRing α] in
+theorem wsumBy_eq_zero (pts : List (WPt α)) (f : WPt α → α) (h : ∀ p ∈ pts, f p = 0) :
+    wsumBy f pts = 0 := by
+  induction pts with
+  | nil => rfl
+  | cons p ps ih =>
+    simp only [wsumBy]
+    rw [h p (by simp), ih (fun q hq => h q (by simp [hq]))]; ring
+
+omit [LinearOrder α] [IsStrictOrderedRing α] in
+/-- the hypothesis `hrank` of `normal_equations_unique` for the affine design: a non-zero
+determinant of the normal matrix (exactly the guard of `affineLsq`) means full column rank -/
+theorem affine_full_rank (pts : List (WPt α))
+    (hdet : wsumBy (fun _ => 1) pts * wsumBy (fun p => p.x * p.x) pts
+      - wsumBy (fun p => p.x) pts * wsumBy (fun p => p.x) pts ≠ 0)
+    (d : Nat → α) (h : ∀ o ∈ affineObs pts, dotN 2 o.row d = 0) : ∀ j, j < 2 → d j = 0 := by
+  have hp : ∀ p ∈ pts, d 0 + p.x * d 1 = 0 := by
+    intro p hp
+    have := h _ (List.mem_map.mpr ⟨p, hp, rfl⟩)
+    simpa [dotN] using this
+  have e1 : d 0 * wsumBy (fun _ => 1) pts + d 1 * wsumBy (fun p => p.x) pts = 0 := by
+    rw [← wsumBy_lin]
+    apply wsumBy_eq_zero
+    intro p hm; have := hp p hm; linear_combination this
+  have e2 : d 0 * wsumBy (fun p => p.x) pts + d 1 * wsumBy (fun p => p.x * p.x) pts = 0 := by
+    rw [← wsumBy_lin]
+    apply wsumBy_eq_zero
+    intro p hm; have := hp p hm; linear_combination p.x * this
+  have h0 : d 0 = 0 := by
+    have : d 0 * (wsumBy (fun _ => 1) pts * wsumBy (fun p => p.x * p.x) pts
+        - wsumBy (fun p => p.x) pts * wsumBy (fun p => p.x) pts) = 0 := by
+      linear_combination wsumBy (fun p => p.x * p.x) pts * e1 - wsumBy (fun p => p.x) pts * e2
+    rcases mul_eq_zero.mp this with h | h
+    · exact h
+    · exact absurd h hdet
+  have h1 : d 1 = 0 := by
+    have : d 1 * (wsumBy (fun _ => 1) pts * wsumBy (fun p => p.x * p.x) pts
+        - wsumBy (fun p => p.x) pts * wsumBy (fun p => p.x) pts) = 0 := by
+      linear_combination wsumBy (fun _ => 1) pts * e2 - wsumBy (fun p => p.x) pts * e1
+    rcases mul_eq_zero.mp this with h | h
+    · exact h
+    · exact absurd h hdet
+  intro j hj
+  have : j = 0 ∨ j = 1 := by omega
+  rcases this with rfl | rfl
+  · exact h0
+  · exact h1
+
+/-- **affine shapes, uniqueness** (`normal_equations_unique` with its rank hypothesis DISCHARGED):
+whenever the closed form exists and the weights are positive, any `(a', b')` whose weighted
+squared residual is not larger is the closed form itself. -/
+theorem affineLsq_unique (pts : List (WPt α)) (a b : α) (h : affineLsq pts = some (a, b))
+    (hw : ∀ p ∈ pts, 0 < p.w) (a' b' : α)
+    (hle : sse 2 (affineObs pts) (pair a' b') ≤ sse 2 (affineObs pts) (pair a b)) :
+    a' = a ∧ b' = b := by
+  have hdet : wsumBy (fun _ => 1) pts * wsumBy (fun p => p.x * p.x) pts
+      - wsumBy (fun p => p.x) pts * wsumBy (fun p => p.x) pts ≠ 0 := by
+    intro h0
+    unfold affineLsq at h
+    dsimp only at h
+    rw [if_pos h0] at h
+    cases h
+  have hw' : ∀ o ∈ affineObs pts, 0 < o.w := by
+    intro o ho
+    rcases List.mem_map.mp ho with ⟨p, hp, rfl⟩
+    exact hw p hp
+  have := normal_equations_unique 2 (affineObs pts) (pair a b) hw' (affineLsq_normal pts a b h)
+    (affine_full_rank pts hdet) (pair a' b') hle
+  exact ⟨this 0 (by omega), this 1 (by omega)⟩
+
+/-- the weight `curve_fit(sigma = s)` gives to an observation is positive whenever it exists
+(`s ≠ 0`): the hypothesis `0 < o.w` of `normal_equations_unique` holds for what the driver builds
+(`takeObs`/`takeWPts`: weight `1` without sigma, `sigmaWeight s` otherwise). -/
+theorem sigmaWeight_pos [DecidableEq α] (s w : α) (h : sigmaWeight s = some w) : 0 < w := by
+  unfold sigmaWeight at h
+  split at h
+  · cases h
+  · rename_i hs
+    have hw : 1 / (s * s) = w := Option.some.inj h
+    rw [← hw]
+    exact one_div_pos.mpr (mul_self_pos.mpr hs)
 end Affine
+
+-- non-vacuity of `affineLsq_unique` / `affine_full_rank`: the design below has determinant 6 ≠ 0
+example : wsumBy (fun _ => 1) [⟨1, 0, 0⟩, ⟨1, 1, 1⟩, ⟨1, 2, 1⟩] *
+      wsumBy (fun p => p.x * p.x) [⟨1, 0, 0⟩, ⟨1, 1, 1⟩, ⟨(1 : ℚ), 2, 1⟩]
+    - wsumBy (fun p => p.x) [⟨1, 0, 0⟩, ⟨1, 1, 1⟩, ⟨1, 2, 1⟩] *
+      wsumBy (fun p => p.x) [⟨1, 0, 0⟩, ⟨1, 1, 1⟩, ⟨(1 : ℚ), 2, 1⟩] = 6 := by
+  norm_num [wsumBy]
+example : sigmaWeight (2 : ℚ) = some (1 / 4) := by norm_num [sigmaWeight]
 
 -- non-vacuity: three points on no common line, unit weights
 example : affineLsq [⟨1, 0, 0⟩, ⟨1, 1, 1⟩, ⟨1, 2, 1⟩] = some ((1 : ℚ) / 6, 1 / 2) := by
